@@ -15,7 +15,7 @@ mkdir -p $D/mut $D/clean
 ( cd /repo && git archive HEAD ) | tar -x -C $D/mut
 ( cd /repo && git archive HEAD ) | tar -x -C $D/clean
 APPLY=ok
-( cd $D/mut && patch -s -p1 < $SRC/patch.diff ) || APPLY=failed
+( cd $D/mut && git apply $SRC/patch.diff ) || APPLY=failed
 TESTS=skipped; DEMO_CLEAN=skipped; DEMO_MUT=skipped
 if [ $APPLY = ok ]; then
   if /verif/tools/baseline.sh $D/mut > $D/tests.log 2>&1; then TESTS=pass; else TESTS=fail; fi
